@@ -464,10 +464,10 @@ func (w *World) Seal() {
 	}
 	w.sealed = true
 	for i, sm := range w.sms {
-		h := uint64(0)
-		_, _, _ = lib.Try(func() error { h = uint64(sm.Height()); return nil })
+		out := "panic"
+		_, _, _ = lib.Try(func() error { out = fmt.Sprint(uint64(sm.Height())); return nil })
 		w.Lines = append(w.Lines, fmt.Sprintf("height %d", i))
-		w.Outs = append(w.Outs, fmt.Sprint(h))
+		w.Outs = append(w.Outs, out)
 	}
 }
 
